@@ -217,6 +217,14 @@ def stepM (classes : List ClassDef) (m : MWorld) : MOp → Except Err (MWorld ×
     | some s => .ok (m, some s)
     | none => .error .keyError
 
+/-- `conf.get_palette()`: a `GlobalPalette` over this configuration (no defaults of its own, so obtaining it
+registers nothing); its accessor attributes are fixed when it is built … -/
+def globalPaletteOf (c : Conf) : Snap := snapOf c Gen.C14.gpAccessors
+
+/-- … while `palette[id]` of a kept result of `get_palette()` asks the configuration it was obtained from, now
+(whichever configuration is the global one at that time) -/
+def keptItem (m : MWorld) (i : Nat) (id : Id) : Option Str := (m.confs[i]?).map fun c => getColor c id
+
 def runM (classes : List ClassDef) : MWorld → List MOp → Except Err MWorld
   | m, [] => .ok m
   | m, op :: ops =>
